@@ -227,6 +227,39 @@ pub fn forgets(_r: &dyn Runner, tier: Tier, st: &St, out: &mut Vec<Edge>) {
     } }
 }
 
+/// handle coherence (C13)
+pub fn handles(_r: &dyn Runner, _tier: Tier, st: &St, out: &mut Vec<Edge>) {
+    use crate::exec_handles::*;
+    let len = st.len as usize;
+    for api in [Api::Erased, Api::Typed] {
+        for k in [GetKind::Get, GetKind::At, GetKind::GetMut, GetKind::AtMut, GetKind::GetUncheckedInRange] { for i in idx(len) { out.push(Edge::Get(api, k, i)); } }
+        for k in [IterKind::Iter, IterKind::IterMut, IterKind::IntoIterRef, IterKind::IntoIterMut] { out.push(Edge::IterAll(api, k)); }
+    }
+    for i in 0..len as u8 {
+        for w in 0..N_WRITERS { for r in 0..N_READERS { out.push(Edge::WriteRead { w, r, i }); } }
+        for lhs in 0..N_SWAP_KINDS { for rhs in 0..N_SWAP_KINDS { out.push(Edge::Swap { lhs, rhs, i }); } }
+    }
+    if len == 0 { for lhs in [0u8, 1, 5] { for rhs in [0u8, 1, 5] { out.push(Edge::Swap { lhs, rhs, i: 0 }); } } }
+}
+
+/// type admission (C04)
+pub fn wrong_types(_r: &dyn Runner, _tier: Tier, st: &St, out: &mut Vec<Edge>) {
+    use crate::exec_handles::*;
+    let len = st.len as usize;
+    for ty in 0..N_WRONG_TYPES {
+        for s in [Src::W, Src::R] {
+            out.push(Edge::WrongPush(s, ty));
+            for i in 0..=len as u8 { out.push(Edge::WrongInsert(i, s, ty)); }
+        }
+        for kind in 0..4u8 { out.push(Edge::WrongSwap(kind, ty)); }
+    }
+    for ty in 0..=N_WRONG_TYPES { for kind in 0..13u8 { out.push(Edge::WrongDowncast(kind, ty)); } }
+    for a in 0..=len { for b in a..=len { for rn in 1..=3u8 { for bad_at in 0..rn { for ty in [1u8, 4] {
+        out.push(Edge::WrongSpliceItem { a: a as u8, b: b as u8, rn, bad_at, ty });
+    } } } } }
+    out.push(Edge::TypeReports(0));
+}
+
 fn movers(out: &mut Vec<Edge>) {
     out.push(Edge::Push(Api::Typed, Src::W));
     out.push(Edge::Pop(Api::Typed, Sink::Downcast));
@@ -241,6 +274,8 @@ pub fn edges_for(prop: Prop, tier: Tier, r: &dyn Runner, st: &St) -> Vec<Edge> {
         Prop::C08 => { clones(r, tier, st, &mut v); movers(&mut v); }
         Prop::C09 => { lazies(r, tier, st, &mut v); movers(&mut v); }
         Prop::C07 => { forgets(r, tier, st, &mut v); movers(&mut v); }
+        Prop::C13 => { handles(r, tier, st, &mut v); movers(&mut v); }
+        Prop::C04 => { wrong_types(r, tier, st, &mut v); movers(&mut v); }
         Prop::C03 | Prop::C05 => { elementwise(r, tier, st, &mut v); ranges(r, tier, st, true, &mut v); clones(r, tier, st, &mut v); lazies(r, tier, st, &mut v); }
         _ => {}
     }
